@@ -3885,7 +3885,9 @@ def gen_PyNumeric(repo):
                     and isinstance(node.left.value, str) and fmt.search(node.left.value):
                 inv.append((node.lineno, node.col_offset, "format", node.left.value))
             elif isinstance(node, ast.FormattedValue) and node.format_spec is not None:
-                inv.append((node.lineno, node.col_offset, "format", _norm(src, node)))
+                # (source positions inside f-strings differ between Python versions: rebuild the text from the tree)
+                spec = "".join(v.value if isinstance(v, ast.Constant) else "{…}" for v in node.format_spec.values)
+                inv.append((node.lineno, 0, "format", "{" + re.sub(r"\s+", "", ast.unparse(node.value)) + ":" + spec + "}"))
             elif isinstance(node, ast.BinOp) and isinstance(node.op, ast.FloorDiv):
                 inv.append((node.lineno, node.col_offset, "floordiv", _norm(src, node)))
             elif isinstance(node, ast.AugAssign) and isinstance(node.op, ast.FloorDiv):
